@@ -180,7 +180,8 @@ func keepFile(name string) bool {
 	case ".SF":
 		// delete all old signatures
 		return false
-	case ".RSA", ".DSA", ".EC", ".SIG":
+	case ".RSA", ".DSA", ".EC":
+		// (signature blocks for other algorithms are named SIG-*, see above)
 		return false
 	default:
 		// all other META-INF/ files are kept
